@@ -179,6 +179,9 @@ func verifH_C07_client() {
 	case 3: // silence: the upgrade timer fires
 	}
 	verifWaitQuiescent()
+	if verifIsNative() && scenario != 0 {
+		time.Sleep(1100 * time.Millisecond) // the real upgrade timer (1s) ends a failed attempt
+	}
 	verifAssert(finished, "the upgrade attempt terminates")
 	verifAssert(closedSock == 0, "an upgrade attempt never closes the connection")
 	if scenario == 0 {
